@@ -116,7 +116,7 @@ class ProblemRec:
         self.emit(e)
         return len(self.insts)
 
-    def eval(self, inst, y, fid="obj", reuse=False, holder="fresh"):
+    def eval(self, inst, y, fid="obj", reuse=False, holder="fresh", rep="f64"):
         fam, member, p = self.insts[inst - 1]
         if p is None:
             return None
@@ -128,7 +128,18 @@ class ProblemRec:
             arr, pt = self.buffers[n]
             arr[:] = y                       # the same array object, overwritten in place
         else:
-            arr = np.array(y, dtype=np.double)
+            # the same point in another representation: Python list / tuple of floats; for integral coordinates also ints
+            integral = all(float(t).is_integer() for t in y)
+            if rep == "list" or (rep in ("ints", "int64") and not integral):
+                arr = [float(t) for t in y]
+            elif rep == "tuple":
+                arr = tuple(float(t) for t in y)
+            elif rep == "ints":
+                arr = [int(t) for t in y]
+            elif rep == "int64":
+                arr = np.array([int(t) for t in y], dtype=np.int64)
+            else:
+                arr = np.array(y, dtype=np.double)
             pt = Point(arr, [])
         fv = FunctionValue() if fid == "obj" else FunctionValue(FunctionType.CONSTRAINT, fid)
         if holder == "prefilled":
